@@ -1184,6 +1184,9 @@ class Checker:
         if ev.get("what") == "other-activity":
             self.stats["other_instance_callbacks"] = self.stats.get("other_instance_callbacks", 0) + ev.get("callbacks", 0)
             self.stats["other_instance_steps"] = self.stats.get("other_instance_steps", 0) + 1
+        if ev.get("what") == "not-awaitable-in-loop":
+            self.rej("C13.same-entry-point", f"inside a running loop, {ev.get('style')}({ev.get('event')!r}) on a machine with coroutine callbacks returned "
+                                             f"{ev.get('got')} instead of something awaitable")
         if ev.get("what") == "garbage-in-model":
             self.stats["garbage_reads"] = self.stats.get("garbage_reads", 0) + 1
             r = ev.get("reads", {})
